@@ -3,6 +3,7 @@ package props
 import (
 	"bytes"
 	"errors"
+	"fmt"
 	"io"
 
 	"github.com/pion/rtp"
@@ -16,11 +17,13 @@ func init() {
 		Rule: "one execution = one packet of the reduced C01 space x one prior buffer content; inside it every destination length 0..MarshalSize()+3 is tried for Packet.MarshalTo and Header.MarshalTo (each length is one case); non-trivial = packet has extension padding or RTP padding",
 		Assumptions: []string{
 			"reduced packet space keeps every size-affecting dimension: CSRC {0,1,15}, extension blocks with 0-3 bytes of 32-bit rounding, payload {0,1,5}, RTP padding {none,1,2,5,255}; thorough uses the full C01 quick space",
+			"after a change: the packet is serialised once, then its size is changed (payload longer / emptied, CSRC entries added / removed, an extension added / all deleted, padding set, another packet decoded into the same value), and every destination length is tried again",
 			"in place: the destination previously contained the packet itself - the packet is parsed from a buffer (its extension values and payload are views into it), one fixed field is changed (none / sequence number / marker / SSRC / timestamp), and it is serialised back into that same buffer, of exactly MarshalSize() bytes or with 3 more; the RTP padding filler bytes of the parsed image are zero or DE",
 			"prior destination contents: all 00, all FF, all A5, i -> i; destinations with capacity == length and windows into a larger array (length < capacity: nothing behind the window may change)",
 		},
 		Scenarios: []mc.Scenario{
 			{Name: "every-destination-length", Tiers: "qt", ShardDepth: 4, Run: c04Run},
+			{Name: "every-destination-length-after-a-change-of-size", Tiers: "qt", ShardDepth: 4, Run: c04AfterChange},
 			{Name: "destination-is-the-parsed-buffer", Tiers: "qt", ShardDepth: 4, Run: c04InPlace},
 		},
 	})
@@ -52,14 +55,86 @@ func c04Run(c *mc.Ctx) {
 	if c.Verbose() {
 		c.Notef("packet: %s; prior buffer pattern %d; destination lengths 0..%d", describeWire(w), pat, p.MarshalSize()+3)
 	}
+	c04AllLengths(c, p, describeWire(w), pat, spare)
+	if w.PadSize > 0 || (w.X && len(w.Body())%4 != 0) {
+		c.NonTrivial()
+	}
+	c.Outcome(c01Class(w))
+	_ = rtp.Header{}
+}
+
+// c04AfterChange: the packet is serialised once, then changed so that its size changes, and
+// then every destination length is tried again: sizes remembered from the first call must not
+// decide the second.
+func c04AfterChange(c *mc.Ctx) {
+	pat := c.Pick(4)
+	spare := c.Bool()
+	p, w := genPacket(c, spaceReduced, fixedPresets[c.Pick(2)])
+	first := make([]byte, p.MarshalSize()+3)
+	if _, err := p.MarshalTo(first); err != nil {
+		c.Failf("marshal-failed", "%s: MarshalTo: %v", describeWire(w), err)
+	}
+	_, _ = p.Header.MarshalTo(first)
+	change := c.Pick(8)
+	what := ""
+	switch change {
+	case 0:
+		what = "payload 7 bytes longer"
+		p.Payload = append(clone(p.Payload), 1, 2, 3, 4, 5, 6, 7)
+	case 1:
+		what = "payload emptied"
+		p.Payload = nil
+	case 2:
+		what = "two CSRC entries more"
+		if len(p.CSRC) > 13 {
+			c.Prune()
+		}
+		p.CSRC = append(append([]uint32{}, p.CSRC...), 0x01020304, 0x05060708)
+	case 3:
+		what = "CSRC list emptied"
+		p.CSRC = nil
+	case 4:
+		what = "SetExtension of a new id with a 5-byte value"
+		if err := p.SetExtension(3, []byte{1, 2, 3, 4, 5}); err != nil {
+			c.Prune() // a legacy block takes no further element
+		}
+	case 5:
+		what = "every extension deleted"
+		for _, id := range p.GetExtensionIDs() {
+			_ = p.DelExtension(id)
+		}
+	case 6:
+		what = "padding of 9 bytes"
+		p.Padding, p.PaddingSize = true, 9
+	case 7:
+		what = "another packet decoded into the same value"
+		if err := p.Unmarshal([]byte{0x92, 0x60, 0, 1, 0, 0, 0, 2, 0, 0, 0, 3, 0, 0, 0, 4, 0, 0, 0, 5, 0xBE, 0xDE, 0, 2, 0x14, 1, 2, 3, 4, 5, 0, 0, 9, 8, 7}); err != nil {
+			c.Failf("marshal-failed", "decoding the second packet: %v", err)
+		}
+	}
+	desc := describeWire(w) + ", serialised once, then " + what
+	if c.Verbose() {
+		c.Notef("%s", desc)
+	}
+	c04AllLengths(c, p, desc, pat, spare)
+	c.NonTrivial()
+	c.Outcome(fmt.Sprintf("change=%d", change))
+}
+
+// c04AllLengths tries every destination length 0..MarshalSize()+3 for Packet.MarshalTo and
+// Header.MarshalTo of p.
+func c04AllLengths(c *mc.Ctx, p *rtp.Packet, desc string, pat int, spare bool) {
 	want, err := p.Marshal()
 	if err != nil {
-		c.Failf("marshal-failed", "%s: Marshal: %v", describeWire(w), err)
+		c.Failf("marshal-failed", "%s: Marshal: %v", desc, err)
 	}
 	size := p.MarshalSize()
+	if len(want) != size {
+		c.Failf("marshalto-size", "%s: Marshal() has %d bytes, MarshalSize() is %d", desc, len(want), size)
+	}
 	hwant, err := p.Header.Marshal()
 	if err != nil {
-		c.Failf("marshal-failed", "%s: Header.Marshal: %v", describeWire(w), err)
+		c.Failf("marshal-failed", "%s: Header.Marshal: %v", desc, err)
 	}
 	hsize := p.Header.MarshalSize()
 	buf := make([]byte, size+3)
@@ -75,20 +150,20 @@ func c04Run(c *mc.Ctx) {
 		n, err := p.MarshalTo(dst)
 		if L < size {
 			if !errors.Is(err, io.ErrShortBuffer) {
-				c.Failf("short-buffer", "%s: MarshalTo(%d bytes, capacity %d) with MarshalSize %d returned n=%d err=%v, want io.ErrShortBuffer", describeWire(w), L, cap(dst), size, n, err)
+				c.Failf("short-buffer", "%s: MarshalTo(%d bytes, capacity %d) with MarshalSize %d returned n=%d err=%v, want io.ErrShortBuffer", desc, L, cap(dst), size, n, err)
 			}
 			if spare && L >= hsize && !bytes.Equal(buf[L:], ref[L:]) {
-				c.Failf("wrote-beyond", "%s: MarshalTo into a %d-byte window of a larger array (too short) changed bytes behind the window", describeWire(w), L)
+				c.Failf("wrote-beyond", "%s: MarshalTo into a %d-byte window of a larger array (too short) changed bytes behind the window", desc, L)
 			}
 		} else {
 			if err != nil || n != size {
-				c.Failf("marshalto-size", "%s: MarshalTo(%d bytes) = %d, %v; MarshalSize %d", describeWire(w), L, n, err, size)
+				c.Failf("marshalto-size", "%s: MarshalTo(%d bytes) = %d, %v; MarshalSize %d", desc, L, n, err, size)
 			}
 			if !bytes.Equal(dst[:n], want) {
-				c.Failf("marshalto-differs-from-marshal", "%s: MarshalTo into a buffer pre-filled with pattern %d wrote %s, Marshal() gives %s", describeWire(w), pat, hx(dst[:n]), hx(want))
+				c.Failf("marshalto-differs-from-marshal", "%s: MarshalTo into a buffer pre-filled with pattern %d wrote %s, Marshal() gives %s", desc, pat, hx(dst[:n]), hx(want))
 			}
 			if !bytes.Equal(dst[n:], ref[n:L]) {
-				c.Failf("wrote-beyond", "%s: MarshalTo(%d bytes) changed bytes beyond MarshalSize %d: %s", describeWire(w), L, size, hx(dst[n:]))
+				c.Failf("wrote-beyond", "%s: MarshalTo(%d bytes) changed bytes beyond MarshalSize %d: %s", desc, L, size, hx(dst[n:]))
 			}
 		}
 		if L > hsize+3 {
@@ -101,27 +176,22 @@ func c04Run(c *mc.Ctx) {
 		n, err = p.Header.MarshalTo(dst)
 		if L < hsize {
 			if !errors.Is(err, io.ErrShortBuffer) {
-				c.Failf("short-buffer", "%s: Header.MarshalTo(%d bytes, capacity %d) with MarshalSize %d returned n=%d err=%v", describeWire(w), L, cap(dst), hsize, n, err)
+				c.Failf("short-buffer", "%s: Header.MarshalTo(%d bytes, capacity %d) with MarshalSize %d returned n=%d err=%v", desc, L, cap(dst), hsize, n, err)
 			}
 			if spare && !bytes.Equal(buf[L:], ref[L:]) {
-				c.Failf("wrote-beyond", "%s: Header.MarshalTo into a %d-byte window of a larger array (too short) changed bytes behind the window", describeWire(w), L)
+				c.Failf("wrote-beyond", "%s: Header.MarshalTo into a %d-byte window of a larger array (too short) changed bytes behind the window", desc, L)
 			}
 		} else {
 			if err != nil || n != hsize || !bytes.Equal(dst[:n], hwant) {
-				c.Failf("marshalto-differs-from-marshal", "%s: Header.MarshalTo(%d bytes, pattern %d) = %d, %v: %s, Header.Marshal() gives %s", describeWire(w), L, pat, n, err, hx(dst[:n]), hx(hwant))
+				c.Failf("marshalto-differs-from-marshal", "%s: Header.MarshalTo(%d bytes, pattern %d) = %d, %v: %s, Header.Marshal() gives %s", desc, L, pat, n, err, hx(dst[:n]), hx(hwant))
 			}
 			if !bytes.Equal(dst[n:], ref[n:L]) {
-				c.Failf("wrote-beyond", "%s: Header.MarshalTo(%d bytes) changed bytes beyond %d", describeWire(w), L, hsize)
+				c.Failf("wrote-beyond", "%s: Header.MarshalTo(%d bytes) changed bytes beyond %d", desc, L, hsize)
 			}
 		}
 	}
 	c.Ops(2*size + 8)
 	c.Cases(size + 3)
-	if w.PadSize > 0 || (w.X && len(w.Body())%4 != 0) {
-		c.NonTrivial()
-	}
-	c.Outcome(c01Class(w))
-	_ = rtp.Header{}
 }
 
 // c04InPlace: parse, touch a fixed field, serialise back into the buffer it was parsed from.
